@@ -8,6 +8,8 @@
 //!       setw <L> <v> <w>                MATCH (n:L) WHERE n.q = v SET n.q = w
 //!       del <L>                         MATCH (n:L) DELETE n
 //!       merge <L> <k>                   MERGE (:L {k: k})
+//!       setrep <L> <q,q,…>              UNWIND [q,…] AS d MATCH (n:L) SET n.q = d, n.p = toBoolean(d)
+//!                                       (the same slots written once per list element before a failing element)
 //!       refused <0|1>                   0: syntax error, 1: a read statement sent to the write API
 //! L: 0 = A, 1 = B.   q: t = true, f = false, x = 'x', 1 = 1 (toBoolean(1) is a runtime error).
 //! outputs: `ok` | `err | <category>` | `bad-op`;  dump: one token, the sorted nodes `L.k.q.p` joined by `,`.
@@ -71,6 +73,13 @@ pub fn render(ws: &[&str]) -> Option<String> {
         ["merge", l, k] => {
             k.parse::<u32>().ok()?;
             format!("MERGE (:{} {{k: {}}})", label(l)?, k)
+        }
+        ["setrep", l, ds] => {
+            let mut items = Vec::new();
+            for d in ds.split(',') {
+                items.push(qlit(d)?);
+            }
+            format!("UNWIND [{}] AS d MATCH (n:{}) SET n.q = d, n.p = toBoolean(d)", items.join(", "), label(l)?)
         }
         ["refused", "0"] => "CREATE (".to_string(),
         ["refused", "1"] => "MATCH (n) RETURN n".to_string(),
@@ -198,7 +207,17 @@ impl Gen {
             4..=5 => format!("setp {}", l),
             6 => format!("setw {} {} {}", l, rng.pick(&["t", "f", "x", "1"]), rng.pick(&["t", "f", "x", "1"])),
             7 => format!("del {}", l),
-            8..=9 => format!("merge {} {}", l, 1 + rng.below(self.next_k as u64 + 2)),
+            8 => format!("merge {} {}", l, 1 + rng.below(self.next_k as u64 + 2)),
+            9 => {
+                // the same property slots written several times, the failing element (1) last, in the middle or absent
+                let n = 2 + rng.below(3);
+                let mut ds: Vec<&str> = (0..n).map(|_| *rng.pick(&["t", "f", "x"])).collect();
+                if failing && rng.chance(2, 3) {
+                    let at = rng.below(n + 1) as usize;
+                    ds.insert(at.min(ds.len()), "1");
+                }
+                format!("setrep {} {}", l, ds.join(","))
+            }
             _ => format!("refused {}", rng.below(2)),
         }
     }
